@@ -423,7 +423,21 @@ func TestC14Respacing(t *testing.T) {
 
 var soupLexemes = append(append([]string{}, c14Lexemes...), "\"", "'", "\n", "\r\n", "\u2028", "\u2029", "\u0085", "\xff", "\xc3", "\xe2\x80", "0", "9", "e", "E", "_", "$", "\\u0041", "\\x4", "\x00", "\t", "\u00a0", "\ufeff", "((", "[[", "))", "]]")
 
+// oddTails: truncated multi-byte sequences and other endings that trip look-ahead code
+var oddTails = []string{"\xe2", "\xe2\x80", "\xc2", "\xef\xbb", "\xf0\x9f\x98", "\r", "\\", "'", "\"", ".", "1e", "1_", "!", "=", "\xe2\x80\xa8", "\xc2\x85", "0x", "a."}
+
 func genBytes(t *rapid.T, maxLen int) []byte {
+	b := genBytesCore(t, maxLen)
+	if rapid.IntRange(0, 3).Draw(t, "oddtail") == 0 {
+		b = append(b, rapid.SampledFrom(oddTails).Draw(t, "tail")...)
+		if rapid.Bool().Draw(t, "oddhead") {
+			b = append([]byte(rapid.SampledFrom(oddTails).Draw(t, "head")), b...)
+		}
+	}
+	return b
+}
+
+func genBytesCore(t *rapid.T, maxLen int) []byte {
 	switch rapid.IntRange(0, 4).Draw(t, "bytekind") {
 	case 0: // uniform bytes
 		return rapid.SliceOfN(rapid.Byte(), 0, maxLen).Draw(t, "bytes")
